@@ -2,6 +2,7 @@
 C03 — the trade ledger is complete, exact and conserves volume.
 Property theorems only.
 -/
+import Bourse.Lemmas.TradeRoles
 import Bourse.Model.Ops
 import Bourse.Lemmas.Frame
 import Bourse.Lemmas.RefLedgerStep
@@ -268,5 +269,39 @@ theorem volume_conserved_history_valid (t0 tick : Nat) (trading : Bool) (ops : L
     (∀ (id : Nat) (e : Entry), b.orders[id]? = some e → e.order.vol + tradedOf id b.trades = e.order.svol) ∧
     (∀ tr ∈ b.trades, tr.active < b.orders.length ∧ tr.passive < b.orders.length) :=
   volume_conserved_history t0 tick trading h.tick_pos ops h.ops_valid hm h.noFault
+
+/-! ### Who is the aggressor -/
+
+/-- The order an operation places or re-prices (`none`: the operation cannot trade). -/
+def subjectOf (b : Book) : Op → Option Nat
+  | .place i | .ev (.new i) | .modify i _ _ | .ev (.modify i _ _) => some i
+  | .cap .. => some b.orders.length
+  | _ => none
+
+theorem subject_abs (b : Book) (op : Op) : Ref.subject (abs b) op = subjectOf b op := by
+  cases op with
+  | ev e => cases e <;> rfl
+  | cap sd vol tr p => simp [Ref.subject, subjectOf, abs, absOrders]
+  | _ => rfl
+
+/-- **"… the ids of the aggressive and the passive order"**: in every reachable state, every record a
+valid operation appends names as its aggressive order exactly the order that operation placed or
+re-priced (for `create_and_place_order` the id it returns); an operation that places or re-prices
+nothing — creation alone, cancellation, clock, switches, counter reset, reload — appends nothing. -/
+theorem aggressor_is_the_operations_order (t0 tick : Nat) (trading : Bool) (ht : 0 < tick) (ops : List Op)
+    (hv : ∀ op ∈ ops, ValidOp op) (hnf : NoFault (Book.new t0 tick trading) ops) (op : Op) (hvo : ValidOp op)
+    (hnfo : (((Book.new t0 tick trading).run ops).step op).1.faulted = false) :
+    let b := (Book.new t0 tick trading).run ops
+    ∃ new, (b.step op).1.trades = b.trades ++ new ∧ ∀ tr ∈ new, subjectOf b op = some tr.active := by
+  intro b
+  have hi := inv_run (inv_new t0 tick trading ht) ops hv hnf
+  obtain ⟨new, h1, h2⟩ := book_step_active hi op hvo hnfo
+  exact ⟨new, h1, fun tr htr => by rw [← subject_abs]; exact h2 tr htr⟩
+
+/-- Non-vacuity: the OLDER order (id 0, created first, placed last) is the aggressor of the record. -/
+example :
+    let b := (Book.new 0 1 true).run [.create .bid 5 1 (some 10), .cap .ask 5 2 (some 10)]
+    ((b.step (.place 0)).1.trades.map fun tr => (tr.active, tr.passive)) = [(0, 1)] ∧ subjectOf b (.place 0) = some 0 := by
+  decide
 
 end Bourse.Props.C03
